@@ -62,6 +62,17 @@ def run(ctx, idx):
             if not ops:
                 continue
             ok = any(x.kind == "masked" for x in ops)
+            if not ok and not isinstance(b, Arr) and isinstance(node, ast.BinOp):
+                # plain array / number, the number being what an enclosing `if` has just tested non-zero (`if len(xs): ... / len(xs)`)
+                par_d = {}
+                for x_ in ast.walk(d.execute.node):
+                    for ch_ in ast.iter_child_nodes(x_):
+                        par_d[id(ch_)] = x_
+                up_, ch_ = par_d.get(id(node)), node
+                while up_ is not None and not ok:
+                    if isinstance(up_, ast.If) and any(ch_ is b_ for b_ in up_.body) and K.src(up_.test) == K.src(node.right):
+                        ok = True
+                    ch_, up_ = up_, par_d.get(id(up_))
             ctx.ob("C04.d", con, d.module.rel, line, ok,
                    "division has a masked operand: zero divisors become missing cells" if ok else
                    "array division without a masked operand: a zero divisor yields inf/nan that the clamp cannot repair")
@@ -133,6 +144,22 @@ def run(ctx, idx):
         raise AnalysisError("C04.g: FuzzySelectedUnion vanished")
     lr_ = [(n_, sel_, m_) for n_, sel_, m_, fk_ in su_[1].layer_reduces if m_ in ("mean", "average", "sum")]
     plain_ = [n_ for n_, sel_, m_ in lr_ if su_[1].layer_reduce_kind.get(id(n_)) == "plain"]
+    # ... unless the reduction sits under a test that the selection holds a layer (`if len(selected):`, the other branch making every
+    # cell missing)
+    par_g = {}
+    for x_ in ast.walk(su_[0].execute.node):
+        for ch_ in ast.iter_child_nodes(x_):
+            par_g[id(ch_)] = x_
+
+    def _under_nonempty_test(n_):
+        base_ = n_.func.value if isinstance(n_, ast.Call) and isinstance(n_.func, ast.Attribute) else (n_.args[0] if isinstance(n_, ast.Call) and n_.args else None)
+        up_, ch_ = par_g.get(id(n_)), n_
+        while up_ is not None:
+            if isinstance(up_, ast.If) and any(ch_ is b_ for b_ in up_.body) and base_ is not None and K.src(up_.test) in ("len(%s)" % K.src(base_), "%s.shape[0]" % K.src(base_), "%s.size" % K.src(base_), "len(%s) > 0" % K.src(base_)):
+                return True
+            ch_, up_ = up_, par_g.get(id(up_))
+        return False
+    plain_ = [n_ for n_ in plain_ if not _under_nonempty_test(n_)]
     ctx.ob("C04.g", "%s.execute::masked-layer-mean" % su_[0].key, su_[0].module.rel, (plain_ or [x_[0] for x_ in lr_] or [su_[0].execute.node])[0].lineno, not plain_,
            "the selected layers are averaged as a masked array" if not plain_ else
            "`%s` averages the selected layers as PLAIN data: over an empty selection (NumberToConsider = 0 passes the guard) that is NaN in every valid cell - not missing, as numpy.ma.mean gives - and NaN passes both comparisons of the final clamp" % K.src(plain_[0])[:60])
